@@ -61,7 +61,7 @@ def valid(pm, nc, kf=3, lz=False):
 
 def jobs(tier):
     q = tier == 'quick'
-    T = 400 if q else 1750      # nominal quick wall times are 5..180 s on an idle core; the margin is for a loaded machine
+    T = 900 if q else 1750      # nominal quick wall times are 5..180 s on an idle core (measured up to 360 s with 12 other solver runs on the machine)
     J = []
     # ---- chunk reader, well-formed messages (oracle B: exactly the payload, then end of body)
     d, us, wm = valid(2, 1) if q else valid(4, 1, kf=4)
@@ -139,4 +139,21 @@ def jobs(tier):
                     'stream <= %d bytes, declared length 0..%d, %d reads of 1..3 bytes then one of everything' % (wl, wl + 2, nl)))
     J.append(J_('length_close', 'harness_length_exact', D(WMAX=wl, PMAX=wl, GMAX=wl + 1, NCALL=2, CMAX=3, KFRAG=3, DO_CLOSE=True), wl + 3, [], T,
                 'BodyReadStream::close after partial reads skips exactly the rest of the body or fails', 'stream <= %d bytes, 2 reads of 1..3 bytes' % wl))
+    # ---- header side (h_headers.cpp): HeadersBase::reset / parse
+    nm = 12 if q else 16
+    HS = 'C13/h_headers.cpp'
+    SC = 'f__ZN6photon12stricmp_fastENSt12experimental15fundamentals_v117basic_string_viewIcSt11char_traitsIcEEES5_'
+    PA = 'f__ZN6photon3net4http11HeadersBase5parseEv'
+    IS = 'f__ZSt16__introsort_loopIPSt4pairI12rstring_viewIttES2_ElN9__gnu_cxx5__ops15_Iter_comp_iterIN6photon3net4http15HeaderAssistantEEEEvT_SD_T0_T1_'
+    def HUS(n, cap):
+        # parse loop: at most 4 index slots fit (then kv_add fails); std::sort: <= 4 elements, so the introsort partition loop (> 16 elements) is never entered
+        return [PA + '.0:7', PA + '.1:%d' % (n + 2), 'ext_memchr.0:%d' % (n + 2), SC + '.0:9', SC + '.1:9', 'verif_bswap64.0:9', IS + '.0:2',
+                'f__ZL5fill2j.0:%d' % (cap + 2), 'f__ZL5fill1v.0:%d' % (cap + 2)]
+    J.append(Job('headers_parse_oob', HS, 'harness_headers_parse_oob', defines=D(NMAX=nm, KMAX=3), unwind=7, unwindset=HUS(nm, nm + 26), shims=SH, cbmc=OB, timeout=T,
+                 desc='HeadersBase::parse on arbitrary received bytes: return code, header count and key/value index do not depend on any byte behind the received data '
+                      '(expected to FAIL on the tree where parse() tests p[0] without an end check: m_buf[m_buf_size] decides the result)',
+                 bounds='any header text of 1..%d bytes, buffer with room for 3..4 index entries' % nm))
+    J.append(Job('headers_parse_wellformed', HS, 'harness_headers_parse_wellformed', defines=D(NMAX=nm + 4, KMAX=3, NHDR=2), unwind=7, unwindset=HUS(nm + 4, nm + 30), shims=SH, cbmc=OB, timeout=T,
+                 desc='HeadersBase::parse on a well-formed header section followed by body bytes: succeeds with exactly the reference keys/values, arbitrary bytes behind the data',
+                 bounds='<= 2 header lines (key 1..2 bytes, optional space, value 0..2 bytes), 0..2 body bytes in the same buffer'))
     return J
